@@ -63,7 +63,7 @@ type Session struct {
 	Action string
 	// After > 0: the action waits until that many data messages were flushed to the
 	// subscriber's writer (a client that leaves after it got its answer), or until the
-	// subscription was completed.
+	// subscription was completed or its upstream's program is over.
 	After int
 }
 
@@ -157,7 +157,7 @@ func Scenarios(prop string, thorough bool) []Scenario {
 		{Name: "S04-update-vs-unsub", Actors: []Actor{one("A", async("A", "a", "h1", 1, "unsub")), one("B", with(async("B", "a", "h1", 2, "none"), func(s *Session) { s.Shape = 1 }))},
 			Progs: map[string][][]Step{k: {{U(1), U(2)}, {U(1)}}}},
 		// the same, the client leaves after its first message (second update in flight vs removal)
-		{Name: "S04b-update-vs-unsub-after-message", Deep: [2]int{0, 1}, Actors: []Actor{one("A", with(async("A", "a", "h1", 1, "unsub"), func(s *Session) { s.After = 1 })), one("B", with(async("B", "a", "h1", 2, "none"), func(s *Session) { s.Shape = 1 }))},
+		{Name: "S04b-update-vs-unsub-after-message", Actors: []Actor{one("A", with(async("A", "a", "h1", 1, "unsub"), func(s *Session) { s.After = 1 })), one("B", with(async("B", "a", "h1", 2, "none"), func(s *Session) { s.Shape = 1 }))},
 			Progs: map[string][][]Step{k: {{U(1), U(2)}, {U(1)}}}},
 		// filter: A drops e2, B does not
 		{Name: "S05-filter", Actors: []Actor{one("A", with(async("A", "a", "h1", 1, "none"), func(s *Session) { s.Filter = true; s.Shape = 1 })), one("B", async("B", "a", "h1", 2, "none"))},
@@ -183,14 +183,14 @@ func Scenarios(prop string, thorough bool) []Scenario {
 		{Name: "S11-sync-complete", Actors: []Actor{one("A", syncS("A", "a", "h1", "none")), one("B", with(syncS("B", "a", "h1", "none"), func(s *Session) { s.Shape = 1 }))},
 			Progs: map[string][][]Step{k: {{U(1), C, D}, {U(1), C, D}}}},
 		// client removal: one connection with two subscriptions (one shared with B), then UnsubscribeClient
-		{Name: "S12-unsubscribe-client", Actors: []Actor{
+		{Name: "S12-unsubscribe-client", MaxBound: 3, Actors: []Actor{
 			{Name: "A", Sessions: []Session{{Name: "A1", Input: "a", Hdr: "h1", Conn: 1, SubID: 1, Action: "none"}, {Name: "A2", Input: "b", Hdr: "h1", Conn: 1, SubID: 2, Action: "unsubClient"}}},
 			one("B", async("B", "a", "h1", 2, "unsub"))},
 			Progs: map[string][][]Step{"a|h1": {{U(1)}, {U(1)}}, "b|h1": {{U(1)}}}},
 		// heartbeat vs flush vs unsubscribe
 		{Name: "S13-heartbeat-vs-flush", Actors: []Actor{one("A", with(async("A", "a", "h1", 1, "unsub"), func(s *Session) { s.HB = true }))},
 			Progs: map[string][][]Step{k: {{U(1), U(2)}}}, Ticks: 1},
-		{Name: "S13b-heartbeat-vs-flush-after-message", Deep: [2]int{0, 1}, Actors: []Actor{one("A", with(async("A", "a", "h1", 1, "unsub"), func(s *Session) { s.HB = true; s.After = 1 }))},
+		{Name: "S13b-heartbeat-vs-flush-after-message", Actors: []Actor{one("A", with(async("A", "a", "h1", 1, "unsub"), func(s *Session) { s.HB = true; s.After = 1 }))},
 			Progs: map[string][][]Step{k: {{U(1), U(2)}}}, Ticks: 1},
 		// heartbeat vs source completion
 		{Name: "S14-heartbeat-vs-complete", Actors: []Actor{one("A", with(async("A", "a", "h1", 1, "none"), func(s *Session) { s.HB = true }))},
@@ -253,6 +253,9 @@ func Scenarios(prop string, thorough bool) []Scenario {
 		}
 		if sc.Thorough && !thorough {
 			continue
+		}
+		if prop != "C12" {
+			sc.Deep = [2]int{} // the deeper bound of S02b serves the C12 clause "nothing written after removal"
 		}
 		out = append(out, sc)
 	}
